@@ -10,7 +10,7 @@ import vlib, props
 from vlib import Infra
 
 IDS = ['C17']
-KINDS = ['query-mixes-boundaries', 'query-error', 'concurrent-write-lost', 'api-write-hangs', 'data-race', 'died', 'timeout']
+KINDS = ['trace-rejected', 'query-mixes-boundaries', 'query-error', 'concurrent-write-lost', 'api-write-hangs', 'data-race', 'died', 'timeout']
 props.KINDS['C17'] = KINDS
 
 
@@ -114,11 +114,40 @@ def check(pid, tier, scratch, replay):
         keep = [j for j in jobs if j['opt'].get('api') == 'build' and j['u'].get('cbmat') != 1]
         rest = [j for j in jobs if j not in keep]
         jobs = keep + rnd.sample(rest, max(0, 900 - len(keep)))
-    results = props.replay_jobs(scratch, jobs)
+    # code -> spec (spec/WalletTrace.tla): everything runs freely - chain changes, announcements, follower, worker with
+    # rescans - while a query thread asks for balance and unspent outputs; TLC places every answer on ONE committed
+    # boundary between the query's start and end (q.begin / q.end lines), and checks that the worker's updates fall only
+    # inside windows in which the follower is suspended (no update of one goroutine inside a step of the other)
+    tjobs = []
+    for cfg, mod, extra, ov, mode, n, depth in (('Gen_Pay.cfg', 'MC_Pay.tla', {}, dict(props.MS, **props.P), 'trace-q', 30 if quick else 800, 16),
+                                                ('Gen_Stake.cfg', 'MC_Stake.tla', props.STAKE_X, dict(props.P), 'trace-q', 20 if quick else 500, 16),
+                                                ('Gen_Imp.cfg', 'MC_Imp.tla', {}, dict(props.IMPORT_ONLY), 'trace', 40 if quick else 800, 18),
+                                                ('Gen_Pay.cfg', 'MC_Pay.tla', {}, dict(props.LIFE), 'trace', 30 if quick else 600, 16)):
+        sp = props.SIM(n, depth, **ov)
+        r = vlib.tlc(cfg, mod, scratch, overrides=sp['overrides'], simulate=dict(num=sp['simulate']['num'], depth=sp['simulate']['depth'], seed=vlib.seed() * 29 + len(tjobs)))
+        vlib.require_clean(r, 'generator (traces) ' + cfg)
+        u = dict(r['universe'])
+        u.update(extra)
+        for k, h in enumerate(x for x in (json.loads(y) for y in sorted(set(r['histories']))) if props.free_runnable(x)):
+            tjobs.append(dict(u=u, h=h, mode=mode, opt=dict(seed=vlib.seed() * 13 + k), src=cfg + ' (' + mode + ')',
+                              trace=dict(cfg=cfg, module=mod, overrides={a: b for a, b in sp['overrides'].items() if a not in ('GenDepth', 'GenRandom')},
+                                         pend=ov.get('Lifecycle') != 'TRUE' or ov.get('Removable') == '{}')))
+    tres = props.replay_jobs(scratch, tjobs)
+    judged, rejected, tstates = props.judge_traces(scratch, tjobs, tres)
+    nq = sum((r or {}).get('trace_lines', 0) for r in tres)
+    again = [i for i, r in enumerate(tres) if r and 'trace-rejected' in props.kinds_of(r)]
+    if again:
+        res2 = props.replay_jobs(scratch, [tjobs[i] for i in again])
+        props.judge_traces(scratch, [tjobs[i] for i in again], res2)
+        for i, r2 in zip(again, res2):
+            if not (r2 and 'trace-rejected' in props.kinds_of(r2)):
+                tres[i] = dict(tres[i], infra=True, err='harness: trace rejected once, accepted when re-run')
+    jobs += tjobs
+    results = props.replay_jobs(scratch, jobs[:len(jobs) - len(tjobs)]) + tres
     # second clause (data races): a -race build of the replays that run goroutines against each other -
     # queries and API writes racing with commits, the follower and the worker running freely with
     # imports / removals and chain changes, free-running shutdown scenarios
-    rjobs = vlib.sample(jobs, 24 if quick else 160, rnd)
+    rjobs = vlib.sample([j for j in jobs if j['mode'] not in ('trace', 'trace-q')], 24 if quick else 160, rnd)
     o = {'GenDepth': '14', 'GenRandom': 'TRUE'}
     for cfg, mod, extra, ov in (('Gen_Pay.cfg', 'MC_Pay.tla', {}, dict(props.LIFE, **props.P)), ('Gen_Stake.cfg', 'MC_Stake.tla', props.STAKE_X, dict(props.REMOVE_ONLY, **props.P)),
                                 ('Gen_Pay.cfg', 'MC_Pay.tla', {}, dict(props.MS, **props.P))):
@@ -146,7 +175,7 @@ def check(pid, tier, scratch, replay):
         if 'infra' in ks:
             infra += 1
             continue
-        raced += (res or {}).get('compared', 0)
+        raced += (res or {}).get('compared', 0) if job['mode'] not in ('trace', 'trace-q') else 0
         mine = {k.split(':')[0] for k in ks} & set(KINDS)
         if not mine:
             continue
@@ -188,7 +217,8 @@ def check(pid, tier, scratch, replay):
             print('  %s %s: %s\n    want %s\n    got  %s' % (d['kind'], d.get('wallet', ''), d['what'], d['want'][:600], d['got'][:300]))
         print('  history: %s' % props.describe(job['h']))
     cov = dict(states=max(states, 1), transitions=max(trans, 1), traces_validated_against_impl=len(jobs) - infra,
-               samples=[dict(history=props.describe(j['h']), mode=j['mode'], query=j['opt'].get('api'), parked_at_storage_call=j['opt']['park']) for j in jobs[:3]],
+               samples=[dict(history=props.describe(j['h']), mode=j['mode'], query=j['opt'].get('api'), parked_at_storage_call=j['opt'].get('park')) for j in jobs[:3]],
+               free_running_traces_judged_by_tlc=judged, trace_lines=nq, trace_judge_states=tstates,
                queries_actually_raced_with_commits=raced, mixed_answers=len(viol) + sum(len(v) for v in hits.values()), model_runs=runs, inconclusive=infra,
                known_finding_hits={k: len(v) for k, v in hits.items()}, race_detector_jobs=race_jobs, race_reports_inside_wallet_code=len(race_reports),
                rule='(history ending in j >= 2 queued tips, query, k): the query goroutine is parked inside its k-th storage call, the follower commits the j block steps, the query resumes; its answer must equal the boundary view the specification gives before or after one of those steps')
